@@ -41,7 +41,8 @@ pub fn run(a: &Args) {
         // synthetic linker chain: n entries; 0 well-formed, 1 cyclic, 2 r_debug cut by the end of its mapping
         let chain = if case % 2 == 1 { let kind = (case / 2) % 3; Some((if kind == 0 { rng.below(6) } else { rng.range(1, 5) }, kind)) } else { None };
         if let Some((n, kind)) = chain { lines.push(format!("chain {n} {kind}")); }
-        lines.push("anon 2 rw- 0".into()); lines.push("anon 1 --- 0".into()); lines.push("anon 1 r-x 1".into()); lines.push("anon 1 -w- 0".into());
+        // every permission triple appears in the target's map
+        for p in ["rw-", "---", "r-x", "-w-", "--x", "r--", "rwx", "-wx"] { lines.push(format!("anon {} {p} {}", if p == "rw-" { 2 } else { 1 }, (p == "r-x") as u32)); }
         let nth = rng.below(3) as usize;
         let scen = Scenario { threads: (0..nth).map(|i| ThreadSpec { kind: Kind::Block, sp_off: 0x800, pages: 2, name: Some(format!("k{i}").into_bytes()), at: None }).collect(), lines };
         let target = match Target::spawn(&scen, &work) { Ok(t) => t, Err(e) => { out.notes.push(format!("spawn failed: {e}")); continue; } };
@@ -88,6 +89,9 @@ pub fn run(a: &Args) {
             let mut r = Line::bare();
             match d.memory_info(&img) { Ok(v) => { r.z(v.len()); for m in &v { r.u(m.base).u(m.alloc_base).u(m.alloc_prot as u64).u(m.size).u(m.state as u64).u(m.prot as u64).u(m.typ as u64); } } Err(e) => { r.0 = format!("!{e}"); } }
             out.case(l.s(), r.s(), true); out.count_n("meminfo.lines", lines.len() as u64);
+            // the same answer against the specification-only entry (independent protection table)
+            out.case(&l.s().replacen("c18_meminfo", "c18_meminfo_spec", 1), r.s(), true);
+            for m in &lines { out.count(&format!("meminfo.perms.{}", m.perms)); }
         }
         // ---- handles: one descriptor per open descriptor, with link target and mode
         {
